@@ -5,6 +5,8 @@ import (
 	"encoding/json"
 	"fmt"
 	"os"
+	"strings"
+	"sync"
 	"time"
 
 	"pkg/lmd"
@@ -17,9 +19,9 @@ func extra(cmd string, _ []string) {
 
 func extraOp(out *bufio.Writer, inst **lmd.VerifInstance, op string, line opLine) bool {
 	switch op {
-	case "session":
+	case "session", "cmdsession":
 		if *inst == nil {
-			emit(out, map[string]interface{}{"id": line.ID, "op": "session", "error": "no dataset"})
+			emit(out, map[string]interface{}{"id": line.ID, "op": op, "error": "no dataset"})
 
 			return true
 		}
@@ -28,12 +30,46 @@ func extraOp(out *bufio.Writer, inst **lmd.VerifInstance, op string, line opLine
 		if scratch == "" {
 			scratch = fmt.Sprintf("/scratch/lmdharness-%d", os.Getpid())
 		}
-		res, timedOut, err := (*inst).VerifSession([]byte(line.Text), scratch+"-sock", 5*time.Second)
+		// what happens around a sender that waits: step i of a peer runs 500ms + i seconds after the start
+		envDone := &sync.WaitGroup{}
+		for peerID, steps := range line.Env {
+			envDone.Add(1)
+			go func(peerID string, steps []string) {
+				defer envDone.Done()
+				start := time.Now()
+				for i, step := range steps {
+					time.Sleep(time.Until(start.Add(500*time.Millisecond + time.Duration(i)*time.Second)))
+					switch {
+					case step == "tick":
+						if curWorld != nil {
+							curWorld.inst.VerifPeerTick(peerID)
+						}
+					case strings.HasPrefix(step, "tick+mode:"):
+						if curWorld != nil {
+							curWorld.inst.VerifPeerTick(peerID)
+							if curWorld.backends[peerID] != nil {
+								_ = curWorld.backends[peerID].SetMode(step[10:])
+							}
+						}
+					case strings.HasPrefix(step, "mode:"):
+						if curWorld != nil && curWorld.backends[peerID] != nil {
+							_ = curWorld.backends[peerID].SetMode(step[5:])
+						}
+					}
+				}
+			}(peerID, steps)
+		}
+		timeout := 5 * time.Second
+		if line.Timeout > 0 {
+			timeout = time.Duration(line.Timeout * float64(time.Second))
+		}
+		res, timedOut, err := (*inst).VerifSession([]byte(line.Text), scratch+"-sock", timeout)
+		envDone.Wait()
 		errStr := ""
 		if err != nil {
 			errStr = err.Error()
 		}
-		emit(out, map[string]interface{}{"id": line.ID, "op": "session", "out": string(res), "timeout": timedOut, "err": errStr})
+		emit(out, map[string]interface{}{"id": line.ID, "op": op, "out": string(res), "timeout": timedOut, "err": errStr})
 
 		return true
 	case "redistribute":
